@@ -246,14 +246,24 @@ def build_ocaml(extract_mod, driver_ml, exe_name, extra_ml=()):
     src_extract = os.path.join(COQ, extract_mod + ".v")
     deps_ok, log = coq_make([extract_mod + ".vo"])
     # even if some proof file is broken the extraction file only depends on model files
-    key = sha(open(src_extract).read(), file_hash(os.path.join(VERIF, "driver", driver_ml)),
-              *[file_hash(os.path.join(COQ, f)) for f in coq_project_files() if not f.startswith("Properties_")])
+    # the compiled Extract*.vo records the digests of everything it (transitively) requires, so its
+    # content changes exactly when the extracted model changes
+    vo = os.path.join(COQ, extract_mod + ".vo")
+    if not deps_ok or not os.path.exists(vo):
+        raise RuntimeError("model does not compile:\n" + log[-4000:])
+    key = sha(open(src_extract).read(), file_hash(os.path.join(VERIF, "driver", driver_ml)), file_hash(vo),
+              *[file_hash(os.path.join(VERIF, "driver", e)) for e in extra_ml])
     d = os.path.join(BUILD, "ocaml", exe_name + "-" + key)
     exe = os.path.join(d, exe_name)
     if os.path.exists(exe):
         return exe
-    if not deps_ok:
-        raise RuntimeError("model does not compile:\n" + log[-4000:])
+    with Lock("ocaml-" + exe_name):
+        return _build_ocaml_locked(extract_mod, driver_ml, exe_name, extra_ml, src_extract, d, exe)
+
+
+def _build_ocaml_locked(extract_mod, driver_ml, exe_name, extra_ml, src_extract, d, exe):
+    if os.path.exists(exe):
+        return exe
     os.makedirs(d, exist_ok=True)
     shutil.copy(src_extract, os.path.join(d, extract_mod + ".v"))
     rc, out = sh(["timeout", "600", "coqc", "-Q", COQ, "PegtlV", extract_mod + ".v"], cwd=d, timeout=660)
@@ -269,9 +279,10 @@ def build_ocaml(extract_mod, driver_ml, exe_name, extra_ml=()):
             files.append(m + "i")
         files.append(m)
     files += list(extra_ml) + [driver_ml]
-    rc, out = sh(["ocamlfind", "ocamlopt", "-O2" if False else "-inline", "20", "-w", "-a"] + files + ["-o", exe_name], cwd=d, timeout=600)
+    rc, out = sh(["ocamlfind", "ocamlopt", "-O2" if False else "-inline", "20", "-w", "-a"] + files + ["-o", exe_name + ".tmp"], cwd=d, timeout=600)
     if rc != 0:
         raise RuntimeError("ocaml build failed:\n" + out[-4000:])
+    os.rename(os.path.join(d, exe_name + ".tmp"), exe)
     return exe
 
 
@@ -309,9 +320,20 @@ def prune_cache(max_dirs=400):
         root = os.path.join(BUILD, sub)
         if not os.path.isdir(root):
             continue
-        ds = [os.path.join(root, x) for x in os.listdir(root)]
-        ds.sort(key=lambda p: os.path.getmtime(p))
-        for p in ds[:-max_dirs]:
+        now = time.time()
+        ds = []
+        for x in os.listdir(root):
+            p = os.path.join(root, x)
+            try:
+                mt = os.path.getmtime(p)
+            except OSError:
+                continue
+            # never prune the shared vmain object or anything another (concurrent) run may still be using
+            if x.startswith("vmain-") or now - mt < 3 * 3600:
+                continue
+            ds.append((mt, p))
+        ds.sort()
+        for _, p in ds[:max(0, len(ds) - max_dirs)]:
             shutil.rmtree(p, ignore_errors=True)
 
 
